@@ -46,6 +46,8 @@ def _work(i):
     shard = st["shards"][i]
     ctx = choice.Ctx(st["tier"], st["seed"], shard, st["memo"], st["wdir"])
     ctx.shard_index = i
+    hist = st.setdefault("hist", [])
+    before = list(hist)
     try:
         res = choice.explore_shard(
             st["body"],
@@ -56,6 +58,13 @@ def _work(i):
         )
     except choice.EngineError as e:
         return ("engine-error", i, repr(e))
+    hist.append(i)
+    # what this worker process had executed before this shard: needed to replay violations that only
+    # manifest because of state the code under test keeps between independent calls
+    for n, vs in res.violations.values():
+        for v in vs:
+            v["worker_history"] = before
+            v["shard_index"] = i
     return ("ok", i, res)
 
 
@@ -120,6 +129,69 @@ def _init_worker_inline():
     import warnings
 
     warnings.simplefilter("ignore")
+
+
+def replay_with_history(body, shards, v, tier, seed, max_dev=None):
+    """Re-run, in a fresh process, every shard the reporting worker had explored before, then the
+    violation's own shard; True iff a violation with the same signature shows up again there."""
+    import json
+
+    want = json.dumps(v["sig"], sort_keys=True, default=str)
+    ctxmp = multiprocessing.get_context("fork")
+    q = ctxmp.Queue()
+
+    def child():
+        try:
+            _STATE.update(body=body, shards=list(shards), tier=tier, seed=seed, tmpdir=scratch_root(),
+                          max_dev=max_dev, sample_every=0, max_exec=None)
+            _STATE.pop("hist", None)
+            _init_worker()
+            for i in list(v.get("worker_history") or []):
+                _work(i)
+            status, _, res = _work(v["shard_index"])
+            q.put(bool(status == "ok" and want in res.violations))
+        except BaseException as e:      # pragma: no cover
+            q.put(False)
+
+    p = ctxmp.Process(target=child)
+    p.start()
+    try:
+        ok = q.get(timeout=3600)
+    except Exception:
+        ok = False
+    p.join(30)
+    if p.is_alive():
+        p.kill()
+    return ok
+
+
+def replay_isolated(body, v, tier, seed):
+    """One execution from its recorded choices, in a fresh forked process (the controlling process
+    never runs the code under test, so it cannot carry state from one replay into the next)."""
+    import json
+
+    want = json.dumps(v["sig"], sort_keys=True, default=str)
+    ctxmp = multiprocessing.get_context("fork")
+    q = ctxmp.Queue()
+
+    def child():
+        try:
+            quiet_stderr()
+            ch, ctx = replay(body, v["shard"], v["choices"], tier, seed)
+            q.put(any(x.sigkey() == want for x in ctx.violations))
+        except BaseException:
+            q.put(False)
+
+    p = ctxmp.Process(target=child)
+    p.start()
+    try:
+        ok = q.get(timeout=1800)
+    except Exception:
+        ok = False
+    p.join(30)
+    if p.is_alive():
+        p.kill()
+    return ok
 
 
 def replay(body, shard, choices, tier, seed):
